@@ -2,7 +2,9 @@ package props
 
 import (
 	"fmt"
+	"math"
 	"math/rand"
+	"sort"
 	"strings"
 
 	"github.com/goghcrow/yae/parser"
@@ -285,6 +287,22 @@ func genTree(r *rand.Rand, t opTable, d int) *ptree {
 func genTree0(r *rand.Rand, t opTable, d int) *ptree {
 	leaves := []string{"a", "b", "c", "1", "2.5", "\"s\"", "true", "x1", "名"}
 	if d <= 0 || r.Intn(5) == 0 {
+		if r.Intn(6) == 0 {
+			// an identifier that begins or ends with the spelling of a word-like
+			// operator (or of true / false) and goes on with a letter
+			words := []string{"true", "false"}
+			for _, o := range t.decl {
+				if ref.IsIdentLikeOp(o.Name) {
+					words = append(words, o.Name)
+				}
+			}
+			w := words[r.Intn(len(words))]
+			tails := []string{"é", "名", "ß1", "x", "_", "1", "è_2", "Ω"}
+			if r.Intn(4) == 0 {
+				return &ptree{kind: "leaf", text: []string{"é", "名", "x", "_"}[r.Intn(4)] + w}
+			}
+			return &ptree{kind: "leaf", text: w + tails[r.Intn(len(tails))]}
+		}
 		return &ptree{kind: "leaf", text: leaves[r.Intn(len(leaves))]}
 	}
 	switch k := r.Intn(10); {
@@ -496,12 +514,43 @@ func runC08(c *run.Ctx) {
 			sib.decl = append(sib.decl, d2)
 		}
 		sib.ops = toOper(sib.decl)
+		// a second sibling: the same order of binding powers, squeezed into
+		// consecutive float32 values (gaps of exactly one ulp) above a base
+		// whose mantissa is a power of two, >= 1.5 or neither
+		adj := opTable{name: t.name + "-adjacent"}
+		{
+			var levels []float64
+			for _, d := range t.decl {
+				levels = append(levels, d.BP)
+			}
+			sort.Float64s(levels)
+			rank := map[float64]int{}
+			for _, l := range levels {
+				if _, ok := rank[l]; !ok {
+					rank[l] = len(rank)
+				}
+			}
+			baseBP := []float32{2, 3, 4, 6, 7, 7.5, 8, 12, 5, 9, 1, 0.75}[r.Intn(12)]
+			for _, d := range t.decl {
+				bp := baseBP
+				for k := 0; k < rank[d.BP]; k++ {
+					bp = math.Nextafter32(bp, float32(math.Inf(1)))
+				}
+				d2 := d
+				d2.BP = float64(bp)
+				adj.decl = append(adj.decl, d2)
+			}
+			adj.ops = toOper(adj.decl)
+		}
 		base := t
 		for k := 0; k < per; k++ {
 			id := fmt.Sprintf("law/%d/%d", ti, k)
 			t := base
 			if k%2 == 1 {
 				t = sib
+			}
+			if k%5 == 2 {
+				t = adj
 			}
 			c.Case(id, func() {
 				tr := genTree(r, t, 1+r.Intn(4))
